@@ -286,7 +286,8 @@ def check(prog: Program, tier: str) -> Result:
     _analyser_purity(prog, res)
     _whole_statement_deletes(prog, res)
     _r16_14(prog, res)
-    res.floors.update({"R16.1": 60, "R16.2": 25, "R16.3": 10, "R16.4": 2, "R16.5": 1, "R16.6": 3, "R16.7": 8, "R16.8": 5, "R16.9": 2, "R16.10": 4, "R16.11": 1, "R16.12": 1, "R16.13": 1})
+    _r16_15(prog, res)
+    res.floors.update({"R16.1": 60, "R16.2": 25, "R16.3": 10, "R16.4": 2, "R16.5": 1, "R16.6": 3, "R16.7": 8, "R16.8": 5, "R16.9": 2, "R16.10": 4, "R16.11": 1, "R16.12": 1, "R16.13": 1, "R16.15": 2})
     res.analysed.update({"ast_kinds": len(kinds)})
     return res
 
@@ -805,6 +806,70 @@ def _safe_callables(prog: Program, res: Result) -> None:
                f"starts from {norm(init[0])}" if init else "does not start from constants.SAFE_CALLABLES")
 
 
+def _r16_15(prog: Program, res: Result) -> None:
+    """Who is called?  (a) has_side_effect judges a call by the NAMES in its callee expression.  That is only meaningful when
+    the callee is named: in `Runner()()` or `get_printer()("x")` the names are those of the factory, what runs is its result.
+    Every answer for the Call kind that can be 'no effect' must be reached only when the callee expression contains no call.
+    (b) safe_callable_names admits a function by looking at its body; a DECORATED function's name is bound to whatever the
+    decorator returned: admission only under `not node.decorator_list`."""
+    from ..pathcond import plain
+    fn = prog.func("core", "has_side_effect")
+    node = fn.posparams[0]
+    pa = PathAnalysis(prog, fn, max_worlds=2048)
+    n = 0
+    for r in walk_own(fn.node):
+        if not isinstance(r, ast.Return) or r.value is None or (isinstance(r.value, ast.Constant) and r.value.value is True):
+            continue
+        worlds = [w for w in pa.worlds_at(r) if any(f[0] == "lit" and f[2] and plain(f[1]).replace(" ", "") == f"isinstance({node},ast.Call)" for f in w.facts)]
+        if not worlds:
+            continue
+        n += 1
+
+        def callee_named(w) -> bool:
+            for f in w.facts:
+                if f[0] != "lit":
+                    continue
+                t = plain(f[1]).replace(" ", "")
+                if not f[2] and t.startswith("any(") and "ast.Call" in t and f"{node}.func" in t:
+                    return True         # not any(isinstance(child, ast.Call) for child in ast.walk(node.func))
+                if f[2] and t.startswith("isinstance(") and t.startswith(f"isinstance({node}.func,") and "ast.Call" not in t:
+                    return True         # isinstance(node.func, (ast.Name, ast.Attribute))
+            return False
+        ok = all(callee_named(w) for w in worlds)
+        res.decide(ok, "R16.15", fn.loc(r), fn.fq, f"Call: {short(r, 60)}",
+                   "answered from the names of the callee only when the callee contains no call" if ok else
+                   "a call is judged by the names in its callee expression also when the callee is itself the RESULT of a call: `Runner()()` and `get_printer()('x')` "
+                   "are 'effect-free' because Runner / get_printer are, and the statement is deleted")
+    if n == 0:
+        res.undecided("R16.15", fn.loc(), fn.fq, "Call: callee form", "no answer for the Call kind found")
+    # (b) decorated functions
+    fn2 = prog.func("parsing", "safe_callable_names")
+    pa2 = PathAnalysis(prog, fn2)
+    m = 0
+    for a in walk_own(fn2.node):
+        if isinstance(a, ast.Call) and isinstance(a.func, ast.Attribute) and a.func.attr == "add" and a.args and isinstance(a.args[0], ast.Attribute) and a.args[0].attr == "name" \
+                and isinstance(a.args[0].value, ast.Name):
+            v = a.args[0].value.id
+            # only the admission of FUNCTIONS (the loop over the function definitions)
+            lp = parent(a)
+            while lp is not None and not isinstance(lp, ast.For):
+                lp = parent(lp)
+            if lp is None or "ClassDef" in norm(lp.iter) and "FunctionDef" not in norm(lp.iter):
+                continue
+            from ..defuse import bindings as _b
+            src = " ".join(norm(x) for _s, x in _b(fn2).get(norm(lp.iter), []) if x is not None) + norm(lp.iter)
+            if "FunctionDef" not in src:
+                continue
+            m += 1
+            test = ast.parse(f"{v}.decorator_list", mode="eval").body
+            ok, _w = pa2.holds_at(a, lambda w: pa2.formula(test, w, False))
+            res.decide(ok, "R16.15", fn2.loc(a), fn2.fq, f"{short(a, 50)} # admission of a function",
+                       "only undecorated functions are admitted" if ok else
+                       "a decorated function is admitted by its body, but its name is bound to what the decorator returns (a wrapper that logs, counts, registers ...): calls of it are deleted as pointless")
+    if m == 0:
+        res.undecided("R16.15", fn2.loc(), fn2.fq, "admission of a function", "admission site not found")
+
+
 def _r16_14(prog: Program, res: Result) -> None:
     """R16.14: a verdict 'effect-free' / 'unreachable' is about ONE module: the names it depends on (which callables are safe,
     which names are rebound) differ from module to module.  The analysers must therefore keep no module-level memory of
@@ -991,6 +1056,12 @@ def _positive(test: ast.AST) -> bool:
 from ..selftest import Variant  # noqa: E402
 
 VARIANTS: List[Variant] = [
+    Variant("called-result-judged-by-factory-name", "FIRE", "core",
+            "        if any(isinstance(child, ast.Call) for child in ast.walk(node.func)):\n            return True\n\n", "", "R16.15"),
+    Variant("callee-form-tested-by-isinstance", "SILENT", "core",
+            "        if any(isinstance(child, ast.Call) for child in ast.walk(node.func)):\n            return True\n",
+            "        if not isinstance(node.func, (ast.Name, ast.Attribute)):\n            return True\n        if any(isinstance(child, ast.Call) for child in ast.walk(node.func)):\n            return True\n"),
+    Variant("decorated-functions-admitted", "FIRE", "parsing", "            if node.decorator_list:\n                continue  # The name is bound to whatever the decorator returns\n", "", "R16.15"),
     Variant("parameters-not-counted-as-bound-names", "FIRE", "parsing",
             "    # A parameter is whatever the caller passes, not the function or builtin of the same name\n    defined_names |= {node.arg for node in core.walk(root, ast.arg)}\n", "", "R16.13"),
     Variant("false-while-deleted-with-its-else", "FIRE", "fixes",
